@@ -155,6 +155,8 @@ structure SInv (v : View) (m : Send) : Prop where
   ids : ∀ ms ∈ m.streams, ms.id ≤ m.lastId ∧ ms.id ≠ 0
   rel : Rels v.initialWindowSize v.streams m.streams
   nodup : (v.streams.map (·.id)).Nodup
+  sorted : (v.streams.map (·.id)).Pairwise (· < ·)
+  oddIds : ∀ s ∈ v.streams, s.id % 2 = 1
   idsLt : ∀ s ∈ v.streams, s.id < v.nextStreamID
   pendOpen : ∀ h b k, v.pendingOpen = some (h, b, k) → h > 0
 
@@ -310,11 +312,15 @@ theorem sim_writeStep {st : State} {m : Send} (h : SInv (view st) m) {id : Nat} 
         simp only [hl, true_and]
         have hbase : SInv (view st) m := h
         have hmem := findStream_mem hf
-        refine { h with connWin := ?_, ids := ?_, rel := ?_, nodup := ?_, idsLt := ?_ }
+        refine { h with connWin := ?_, ids := ?_, rel := ?_, nodup := ?_, idsLt := ?_, sorted := ?_, oddIds := ?_ }
         rotate_left 3
         · show ((setStream st.streams _).map (·.id)).Nodup
           rw [setStream_ids st.streams _ hf (by split <;> rfl)]
           exact h.nodup
+        · show ((setStream st.streams _).map (·.id)).Pairwise (· < ·)
+          rw [setStream_ids st.streams _ hf (by split <;> rfl)]
+          exact h.sorted
+        · exact mem_setStream h.oddIds (by split <;> exact h.oddIds s0 hmem.1)
         · exact mem_setStream h.idsLt (by split <;> exact h.idsLt s0 hmem.1)
         · simpa [view] using h.connWin
         · intro x hx
@@ -367,11 +373,15 @@ theorem sim_writeStep {st : State} {m : Send} (h : SInv (view st) m) {id : Nat} 
     · rw [view_settle]
       simp only [hl, true_and]
       have hmem := findStream_mem hf
-      refine { h with connWin := ?_, connLo := ?_, connHi := ?_, ids := ?_, rel := ?_, nodup := ?_, idsLt := ?_ }
+      refine { h with connWin := ?_, connLo := ?_, connHi := ?_, ids := ?_, rel := ?_, nodup := ?_, idsLt := ?_, sorted := ?_, oddIds := ?_ }
       rotate_left 5
       · show ((setStream st.streams _).map (·.id)).Nodup
         rw [setStream_ids st.streams _ hf (by split <;> rfl)]
         exact h.nodup
+      · show ((setStream st.streams _).map (·.id)).Pairwise (· < ·)
+        rw [setStream_ids st.streams _ hf (by split <;> rfl)]
+        exact h.sorted
+      · exact mem_setStream h.oddIds (by split <;> exact h.oddIds s0 hmem.1)
       · exact mem_setStream h.idsLt (by split <;> exact h.idsLt s0 hmem.1)
       · simp only [view]; omega
       · simp only [view]; omega
@@ -413,12 +423,16 @@ theorem sinv_set {v : View} {m : Send} (h : SInv v m) {id : Nat} {s s' : Stream}
     SInv { v with streams := setStream v.streams s' } { m with streams := setM m.streams ms' } := by
   have hmem := findStream_mem hf
   have hmm := findM_mem hm
-  refine { h with ids := ?_, rel := ?_, nodup := ?_, idsLt := ?_ }
+  refine { h with ids := ?_, rel := ?_, nodup := ?_, idsLt := ?_, sorted := ?_, oddIds := ?_ }
   · exact mem_setM h.ids (by rw [hmid]; exact h.ids ms hmm.1)
   · exact rels_set h.rel hr
   · show ((setStream v.streams s').map (·.id)).Nodup
     rw [setStream_ids v.streams s' hf hid]
     exact h.nodup
+  · show ((setStream v.streams s').map (·.id)).Pairwise (· < ·)
+    rw [setStream_ids v.streams s' hf hid]
+    exact h.sorted
+  · exact mem_setStream h.oddIds (by rw [hid]; exact h.oddIds s hmem.1)
   · exact mem_setStream h.idsLt (by rw [hid]; exact h.idsLt s hmem.1)
 
 theorem sinv_set_left {v : View} {m : Send} (h : SInv v m) {id : Nat} {s s' : Stream}
@@ -427,11 +441,15 @@ theorem sinv_set_left {v : View} {m : Send} (h : SInv v m) {id : Nat} {s s' : St
     (h5 : s'.peerEnd = s.peerEnd) :
     SInv { v with streams := setStream v.streams s' } m := by
   have hmem := findStream_mem hf
-  refine { h with rel := ?_, nodup := ?_, idsLt := ?_ }
+  refine { h with rel := ?_, nodup := ?_, idsLt := ?_, sorted := ?_, oddIds := ?_ }
   · exact rels_refl_set h.rel h.nodup hf h1 h2 h3 h4 h5
   · show ((setStream v.streams s').map (·.id)).Nodup
     rw [setStream_ids v.streams s' hf h1]
     exact h.nodup
+  · show ((setStream v.streams s').map (·.id)).Pairwise (· < ·)
+    rw [setStream_ids v.streams s' hf h1]
+    exact h.sorted
+  · exact mem_setStream h.oddIds (by rw [h1]; exact h.oddIds s hmem.1)
   · exact mem_setStream h.idsLt (by rw [h1]; exact h.idsLt s hmem.1)
 
 /-- the monitor ignores the client's WINDOW_UPDATEs on the send side -/
@@ -675,7 +693,24 @@ theorem sim_doOpen {st : State} {m : Send} (h : SInv (view st) m) (hdrLen bodyLe
   have hih := h.initHi
   have hodd := h.odd
   simp only [view] at hiw hih hodd
-  refine { h with lastId := ?_, odd := ?_, ids := ?_, rel := ?_, nodup := ?_, idsLt := ?_, hdr := rfl }
+  refine { h with lastId := ?_, odd := ?_, ids := ?_, rel := ?_, nodup := ?_, idsLt := ?_, hdr := rfl, sorted := ?sorted, oddIds := ?oddIds }
+  case sorted =>
+    show ((st.streams ++ [_]).map (fun (x : Stream) => x.id)).Pairwise (· < ·)
+    rw [List.map_append, List.pairwise_append]
+    refine ⟨h.sorted, by simp, ?_⟩
+    intro a ha b hb
+    simp only [List.map_cons, List.map_nil, List.mem_singleton] at hb
+    simp only [List.mem_map] at ha
+    rcases ha with ⟨x, hx, rfl⟩
+    have := h.idsLt x hx
+    simp only [view] at this
+    omega
+  case oddIds =>
+    intro x hx
+    simp only [view, List.mem_append, List.mem_singleton] at hx
+    rcases hx with hx | rfl
+    · exact h.oddIds x hx
+    · exact hodd
   · show st.nextStreamID < st.nextStreamID + 2; omega
   · show (st.nextStreamID + 2) % 2 = 1; omega
   · intro ms hms
@@ -1201,7 +1236,16 @@ theorem sim_applySetting {st st' : State} {m : Send} {sm sm' : Bool} {p : Nat ×
           simp only [view] at hiw hih
           have hp2 : p.2 ≤ 2147483647 := by omega
           refine ⟨by simp [invalidSetting, hbig], ?_, cn, rfl⟩
-          refine { h with initWin := rfl, initHi := hp2, ids := ?_, rel := ?_, nodup := ?_, idsLt := ?_ }
+          refine { h with initWin := rfl, initHi := hp2, ids := ?_, rel := ?_, nodup := ?_, idsLt := ?_, sorted := ?sorted, oddIds := ?oddIds }
+          case sorted =>
+            show ((st.streams.map (deltaStream ((p.2 : Int) - (st.initialWindowSize : Int)))).map (fun (x : Stream) => x.id)).Pairwise (· < ·)
+            rw [map_delta_ids]; exact h.sorted
+          case oddIds =>
+            intro x hx
+            simp only [view, List.mem_map] at hx
+            rcases hx with ⟨y, hy, rfl⟩
+            rw [deltaStream_id]
+            exact h.oddIds y hy
           · intro ms hms
             simp only [List.mem_map] at hms
             rcases hms with ⟨y, hy, rfl⟩
@@ -1444,6 +1488,8 @@ theorem sinv_init (cfg : Cfg) (hfix : cfg.fixes = Fixes.all) :
           ids := by intro ms hms; simp [Send.init] at hms,
           rel := Rels.nil,
           nodup := by simp [view, newConn],
+          sorted := by simp [view, newConn],
+          oddIds := by intro s hs; simp [view, newConn] at hs,
           idsLt := by intro s hs; simp [view, newConn] at hs,
           pendOpen := by intro a b c hx; simp [view, newConn] at hx }
 
